@@ -623,11 +623,11 @@ impl Property for C13 {
     }
     fn workloads(&self, tier: Tier) -> Vec<(String, u64)> {
         vec![
-            ("bvh-boxes".into(), tier.pick(2800, 200_000)),
-            ("bvh-occluders".into(), tier.pick(150, 8000)),
-            ("polygon-exact".into(), tier.pick(1500, 150_000)),
-            ("polygon-lattice".into(), tier.pick(600, 60_000)),
-            ("reveals".into(), tier.pick(500, 40_000)),
+            ("bvh-boxes".into(), tier.pick(8000, 200_000)),
+            ("bvh-occluders".into(), tier.pick(450, 8000)),
+            ("polygon-exact".into(), tier.pick(4500, 150_000)),
+            ("polygon-lattice".into(), tier.pick(1800, 60_000)),
+            ("reveals".into(), tier.pick(1500, 40_000)),
         ]
     }
     fn required(&self, _tier: Tier) -> Vec<(String, u64)> {
